@@ -55,6 +55,7 @@ type Output struct {
 	LoadS     float64         `json:"load_s"`
 	Solver    string          `json:"solver"`
 	Harnesses []HarnessResult `json:"harnesses"`
+	L2        []L2Result      `json:"l2"`
 	Error     string          `json:"error,omitempty"`
 }
 
@@ -110,7 +111,35 @@ func main() {
 	}
 	res.LoadS = time.Since(t0).Seconds()
 
-	names := strings.Split(*run, ",")
+	var names, l2names []string
+	for _, n := range strings.Split(*run, ",") {
+		n = strings.TrimSpace(n)
+		if n == "" {
+			continue
+		}
+		if strings.HasSuffix(n, ":l2") || strings.HasSuffix(n, ":l2int") {
+			l2names = append(l2names, n)
+		} else {
+			names = append(names, n)
+		}
+	}
+	l2results := make([]L2Result, len(l2names))
+	var wg2 sync.WaitGroup
+	sem2 := make(chan struct{}, *jobs)
+	for i, n := range l2names {
+		wg2.Add(1)
+		go func(i int, n string) {
+			defer wg2.Done()
+			sem2 <- struct{}{}
+			defer func() { <-sem2 }()
+			mode := "bv"
+			if strings.HasSuffix(n, ":l2int") {
+				mode = "int"
+			}
+			n = strings.TrimSuffix(strings.TrimSuffix(n, ":l2int"), ":l2")
+			l2results[i] = runL2Harness(prog, pkg, n, mode, *solver, *timeout, known, *maxSteps, *smtlog)
+		}(i, n)
+	}
 	results := make([]HarnessResult, len(names))
 	var wg sync.WaitGroup
 	sem := make(chan struct{}, *jobs)
@@ -133,9 +162,16 @@ func main() {
 		}(i, strings.TrimSpace(n))
 	}
 	wg.Wait()
+	wg2.Wait()
 	res.Harnesses = results
+	res.L2 = l2results
 	emit()
 	for _, r := range results {
+		if r.Error != "" {
+			os.Exit(2)
+		}
+	}
+	for _, r := range l2results {
 		if r.Error != "" {
 			os.Exit(2)
 		}
